@@ -226,6 +226,14 @@ var deviantFlags = []struct {
 		}
 		return false
 	}, nil},
+	{"label_filter_chain_right_nested", func(r *Rules) { r.ChainRightNested = true }, func(q *Query) bool {
+		for _, s := range q.Stages {
+			if s.Kind == "label" && s.Chain != nil && s.Chain.mixed() {
+				return true
+			}
+		}
+		return false
+	}, nil},
 	{"label_filter_sees_later_parser", func(r *Rules) { r.LaterParserVisible = true }, func(q *Query) bool {
 		sawLabel := false
 		for i, s := range q.Stages {
@@ -483,6 +491,8 @@ func main() {
 	for _, d := range smalls {
 		dbs[d.Name] = d
 	}
+	truth := truthDB(start, end)
+	dbs[truth.Name] = truth
 
 	if r.Replay != "" {
 		b, err := os.ReadFile(r.Replay)
@@ -496,6 +506,11 @@ func main() {
 			ev.Fatal("bad replay file: %v", err)
 		}
 		spec := doc.Replay
+		for i := range spec.Query.Stages {
+			if c := spec.Query.Stages[i].Chain; c != nil {
+				spec.Query.Stages[i].Tree = c.logqlTree()
+			}
+		}
 		spec.Text = spec.Query.String()
 		db := dbs[spec.DB]
 		if db == nil {
@@ -606,6 +621,20 @@ func main() {
 				continue
 			}
 			add(Params{Start: start, End: end, Limit: v.l, Forward: v.fwd}, false)
+		}
+	}
+	// unparenthesised and/or chains on the truth-table database (all 8 truth assignments of three independent
+	// comparisons, before and after a parser), without limit and with limit 1 backward
+	for _, qu := range chainQueries(cfg) {
+		text := qu.String()
+		if seen[text] {
+			continue
+		}
+		seen[text] = true
+		cases = append(cases, caseSpec{Query: qu, Text: text, DB: truth.Name, Params: Params{Start: start, End: end}})
+		if cfg.thorough {
+			cases = append(cases, caseSpec{Query: qu, Text: text, DB: truth.Name, Params: Params{Start: start, End: end, Limit: 1}},
+				caseSpec{Query: qu, Text: text, DB: truth.Name, Params: Params{Start: start, End: end}, Cluster: true})
 		}
 	}
 	nUniversalQueries := len(uq)
